@@ -94,6 +94,14 @@ def build(cfg, values=None):
         elif variant == 'cA':
             am = ctx.V('aeromu')
             p.size = p.get_size()
+            if cfg.get('after_edge_redefinition'):
+                # the damping matrix was already asked for with OTHER w edge conditions (and another coefficient) on the same object
+                now = {nm: getattr(p, nm) for nm in ('w1tx', 'w2rx', 'w2ty', 'w1ry')}
+                for nm in now:
+                    setattr(p, nm, ctx.V(nm + '_before'))
+                p.calc_cA(am, silent=True)
+                for nm, v_ in now.items():
+                    setattr(p, nm, v_)
             p.calc_cA(am, silent=True)
             C = p.cA.todict()
             S = series_of(p, model)
@@ -303,6 +311,7 @@ def configs(tier, seed):
             out.append({'model': model, 'm': 4 if flow == 'x' else 1, 'n': 1 if flow == 'x' else 4, 'variant': 'mach', 'flow': flow, 'history': True, 'group': 'mach-route-second-flight-condition-flow-%s:%s' % (flow, model)})
         out.append({'model': model, 'm': 3, 'n': 2, 'variant': 'cA', 'flow': 'x', 'group': 'cA:%s' % model})
         out.append({'model': model, 'm': 2, 'n': 3, 'variant': 'cA', 'flow': 'y', 'group': 'cA:%s' % model})
+        out.append({'model': model, 'm': 2, 'n': 2, 'variant': 'cA', 'flow': 'x', 'after_edge_redefinition': True, 'group': 'cA-after-edge-redefinition:%s' % model})
         if model != 'cpanel':
             out.append({'model': model, 'm': 3, 'n': 2, 'variant': 'exchange', 'flow': 'y', 'group': 'axis-exchange:%s' % model})
     out.append({'model': 'cpanel', 'm': 2, 'n': 2, 'variant': 'kA-gamma-only', 'flow': 'x', 'group': 'kA-gamma-only:cpanel'})
